@@ -247,6 +247,11 @@ func Replay(mode string, licVer int, storage string, walk []json.RawMessage, lab
 			return nil, fmt.Errorf("behaviour uses client %s which is not open", a.C)
 		}
 		w.msgID++
+		if a.N == "pub" {
+			// make every published payload distinguishable; the logged request carries the payload actually sent
+			a.P = fmt.Sprintf("%s-%d", a.P, w.msgID)
+			ev["p"] = a.P
+		}
 		isSub := ""
 		switch a.N {
 		case "connect":
@@ -324,13 +329,17 @@ func Replay(mode string, licVer int, storage string, walk []json.RawMessage, lab
 
 // ---------------------------------------------------------------------------------------------
 
-func mcCfg(mode, fam string, clients string, maxOps, maxStore int, gen string) string {
-	return fmt.Sprintf("CONSTANTS\n Mode = %q\n Clients = %s\n KeyPerms <- StdKeyPerms\n Fam = %q\n MaxOps = %d\n MaxStore = %d\n Gen = %q\nINIT MCInit\nNEXT MCNext\nVIEW View\nINVARIANTS TrieIsHeld NothingLeftBehind ClosedIsSilent DeliveriesJustified Dump\n",
+func mcCfg(mode, fam string, clients string, maxOps, maxStore int, gen string, small bool) string {
+	sm := "FALSE"
+	if small {
+		sm = "TRUE"
+	}
+	return fmt.Sprintf("CONSTANTS\n Mode = %q\n Clients = %s\n KeyPerms <- StdKeyPerms\n Fam = %q\n MaxOps = %d\n MaxStore = %d\n Gen = %q\n Small = "+sm+"\nINIT MCInit\nNEXT MCNext\nVIEW View\nINVARIANTS TrieIsHeld NothingLeftBehind ClosedIsSilent DeliveriesJustified Dump\n",
 		mode, clients, fam, maxOps, maxStore, gen)
 }
 
 func simCfg(mode, fam string, maxOps int) string {
-	return fmt.Sprintf("CONSTANTS\n Mode = %q\n Clients = {\"c1\",\"c2\",\"c3\"}\n KeyPerms <- StdKeyPerms\n Fam = %q\n MaxOps = %d\n MaxStore = 6\n Gen = \"sim\"\nINIT MCInit\nNEXT MCNext\nINVARIANTS TrieIsHeld NothingLeftBehind ClosedIsSilent DeliveriesJustified Dump\n",
+	return fmt.Sprintf("CONSTANTS\n Mode = %q\n Clients = {\"c1\",\"c2\",\"c3\"}\n KeyPerms <- StdKeyPerms\n Fam = %q\n MaxOps = %d\n MaxStore = 6\n Gen = \"sim\"\n Small = FALSE\nINIT MCInit\nNEXT MCNext\nINVARIANTS TrieIsHeld NothingLeftBehind ClosedIsSilent DeliveriesJustified Dump\n",
 		mode, fam, maxOps)
 }
 
@@ -380,6 +389,8 @@ type Plan struct {
 	Rule       string
 	Nontrivial func(t *core.Trace) bool
 	Storage    string
+	EdgeOps    int // MaxOps of the reduced-alphabet exhaustive export (thorough; quick uses one less)
+	QuickOps   int // MaxOps of the full-alphabet invariant check (quick; thorough uses one more)
 }
 
 // RunFamily is the common body of C02 / C07 / C08 / C18.
@@ -387,9 +398,9 @@ func RunFamily(c *core.Ctx, p Plan) {
 	c.Level = "model_checking"
 	rng := rand.New(rand.NewSource(c.Seed))
 	modes := []string{"emitter", "mqtt"}
-	maxOps, num, depth := 4, 120, 18
+	maxOps, num, depth, edgeOps := p.QuickOps, 120, 18, p.EdgeOps-1
 	if !c.Quick() {
-		maxOps, num, depth = 5, 1500, 24
+		maxOps, num, depth, edgeOps = p.QuickOps+1, 1500, 24, p.EdgeOps
 	}
 	type job struct {
 		mode string
@@ -399,7 +410,40 @@ func RunFamily(c *core.Ctx, p Plan) {
 	var jobs []job
 	for _, mode := range modes {
 		// design level: exhaustive over the family's request alphabet, 2 clients
-		c.ModelCheck("MC_Session", mcCfg(mode, p.Fam, `{"c1","c2"}`, maxOps, 2, "none"), tlc.Opts{})
+		c.ModelCheck("MC_Session", mcCfg(mode, p.Fam, `{"c1","c2"}`, maxOps, 2, "none", false), tlc.Opts{})
+		// every edge of the state graph of a reduced alphabet, as covering walks
+		g := core.NewGraph()
+		g.IsSet = func(path []string) bool {
+			if len(path) == 0 {
+				return false
+			}
+			return (len(path) == 1 && path[0] == "trie") || (len(path) == 2 && (path[0] == "held" || path[0] == "links"))
+		}
+		c.ModelCheck("MC_Session", mcCfg(mode, p.Fam, `{"c1","c2"}`, edgeOps, 2, "edges", true), tlc.Opts{OnTag: func(tag, js string) {
+			if tag == "EDGE" {
+				if err := g.AddJSON(js); err != nil {
+					core.Fatalf("EDGE: %v", err)
+				}
+			}
+		}})
+		initKey := `{"conn":{"c1":"new","c2":"new"},"held":{"c1":[],"c2":[]},"trie":[],"links":{"c1":[],"c2":[]},"store":[],"will":{"c1":{"on":false},"c2":{"on":false}}}`
+		walks, covered, unreach := g.Walks(g.Key(initKey), 40, rng, 0.3)
+		if unreach > 0 || covered == 0 {
+			core.Fatalf("session graph (%s): %d edges unreachable from init, %d covered (state key mismatch?)", p.Fam, unreach, covered)
+		}
+		c.Add("edges_exported", int64(g.Edges))
+		if maxW := 250; c.Quick() && len(walks) > maxW {
+			rng.Shuffle(len(walks), func(i, j int) { walks[i], walks[j] = walks[j], walks[i] })
+			walks = walks[:maxW]
+		} else if len(walks) > 6000 {
+			rng.Shuffle(len(walks), func(i, j int) { walks[i], walks[j] = walks[j], walks[i] })
+			walks = walks[:6000]
+		}
+		core.Logf("session %s/%s: %d edges exported, %d walks replayed", p.Fam, mode, g.Edges, len(walks))
+		c.Add("graph_walks_replayed", int64(len(walks)))
+		for i, w := range walks {
+			jobs = append(jobs, job{mode, w, 200000 + i})
+		}
 		for i, w := range Simulate(c, mode, p.Fam, num, depth, rng) {
 			jobs = append(jobs, job{mode, w, i})
 		}
@@ -502,7 +546,7 @@ func countPkts(t *core.Trace, typ string) int {
 
 // RunC02 is the C02 check.
 func RunC02(c *core.Ctx) {
-	RunFamily(c, Plan{Fam: "pubsub", What: "clients did not receive exactly what their acknowledged subscriptions entitle them to",
+	RunFamily(c, Plan{Fam: "pubsub", EdgeOps: 4, QuickOps: 4, What: "clients did not receive exactly what their acknowledged subscriptions entitle them to",
 		Rule: "TLC-simulated request sequences (3 clients; collision families a/b-b/a, a/a-b/b, x/x/y-y; wildcards; links; me=0; failing requests) replayed on a real broker; non-trivial = at least one message delivered and at least one error reply or undelivered publish in the same behaviour; distinct by TLC seed/behaviour",
 		Nontrivial: func(t *core.Trace) bool {
 			return countPkts(t, "pub") > 0 && (countPkts(t, "err") > 0 || countPkts(t, "puback") > countPkts(t, "pub"))
@@ -511,7 +555,7 @@ func RunC02(c *core.Ctx) {
 
 // RunC07 is the C07 check.
 func RunC07(c *core.Ctx) {
-	RunFamily(c, Plan{Fam: "retain", What: "stored / replayed messages differ from what retain, ttl, store and load permissions and the last/window options prescribe",
+	RunFamily(c, Plan{Fam: "retain", EdgeOps: 8, QuickOps: 5, What: "stored / replayed messages differ from what retain, ttl, store and load permissions and the last/window options prescribe",
 		Rule: "TLC-simulated publishes (retain/ttl/store permission) and later subscribes (load permission, last in {absent,0,1,2,1000}, from/until) replayed on a real broker with the badger-backed store; non-trivial = at least one non-empty replay before a SUBACK and one subscribe that replays nothing",
 		Nontrivial: func(t *core.Trace) bool {
 			return countPkts(t, "replay") > 0 && countPkts(t, "suback") > countPkts(t, "replay")
@@ -520,7 +564,7 @@ func RunC07(c *core.Ctx) {
 
 // RunC08 is the C08 check.
 func RunC08(c *core.Ctx) {
-	RunFamily(c, Plan{Fam: "ending", What: "a connection that ended left subscriptions behind, or its last will / presence departure was wrong",
+	RunFamily(c, Plan{Fam: "ending", EdgeOps: 4, QuickOps: 3, What: "a connection that ended left subscriptions behind, or its last will / presence departure was wrong",
 		Rule: "TLC-simulated sessions (ordinary, link-created and presence-change subscriptions; wills with good, read-only, undecryptable keys, wildcard and malformed will topics) ended by DISCONNECT, abrupt close, a cut inside a packet at a seeded byte offset, or a malformed packet; non-trivial = at least one ending of a connection that held a subscription or a will",
 		Nontrivial: func(t *core.Trace) bool {
 			for _, ev := range eventsOf(t) {
@@ -534,7 +578,7 @@ func RunC08(c *core.Ctx) {
 
 // RunC18 is the C18 check.
 func RunC18(c *core.Ctx) {
-	RunFamily(c, Plan{Fam: "presence", What: "presence status or change notifications differ from the subscriptions actually held",
+	RunFamily(c, Plan{Fam: "presence", EdgeOps: 8, QuickOps: 5, What: "presence status or change notifications differ from the subscriptions actually held",
 		Rule:       "TLC-simulated histories of subscribe/unsubscribe/disconnect and presence requests (status and/or changes, exact and parent channels); non-trivial = at least one notification received by a watcher and one non-empty status reply",
 		Nontrivial: func(t *core.Trace) bool { return countPkts(t, "pres") > 0 }})
 }
